@@ -22,7 +22,6 @@ import (
 
 	"github.com/juev/hledger-lsp/internal/analyzer"
 	"github.com/juev/hledger-lsp/internal/include"
-	"github.com/juev/hledger-lsp/internal/parser"
 	"github.com/juev/hledger-lsp/internal/server"
 )
 
@@ -140,7 +139,7 @@ func c08Doc(c *Ctx, text string, g bool) map[string]any {
 	}
 
 	// inputs of the diagnostic range construction, taken from the real parser/analyzer/loader
-	journal, perrs := parser.Parse(text)
+	journal, perrs := hxParse(text)
 	diagIn := [][]int{}
 	loadIn := [][]int{}
 	resolved, lerrs := include.NewLoader().LoadFromContent(path, text)
